@@ -213,7 +213,30 @@ def py_index(sel):
         pos = {l: i for i, l in enumerate(sel["labels"])}
         return pd.Series([bool(sel["v"][pos[l]]) for l in sel["series_order"]], index=list(sel["series_order"]))
     if k in ("labels", "pos", "mask"):
-        return list(sel["v"])
+        # the same selection in another kind of container (re-iterable or one-shot)
+        import zlib
+        v = list(sel["v"])
+        h = zlib.crc32(repr((k, v)).encode()) % 12
+        if k == "mask":
+            return np.array(v, dtype=bool) if h % 3 == 0 and v else v
+        if h == 0 and v:
+            return np.array(v, dtype=object if k == "labels" else int)
+        if h == 1 and v:
+            import pandas as pd
+            return pd.Index(v)
+        if k != "labels":
+            return v            # (positional indexers must be numeric arrays / lists: pandas refuses views and iterators)
+        if h == 2:
+            return iter(v)
+        if h == 3:
+            return (x for x in v)
+        if h == 4:
+            return reversed(v[::-1])
+        if h == 5:
+            return dict.fromkeys(v).keys() if len(set(v)) == len(v) else v
+        if h == 6:
+            return map(lambda x: x, v)
+        return v
     if k in ("label", "posint"):
         return sel["v"]
     if k == "pslice":
